@@ -73,6 +73,12 @@ Proof.
 Qed.
 Print Assumptions C05_no_loss_item_edits.
 
+(* transform_qubits keeps every operation (uid) in its moment and position *)
+Theorem C05_transform_keeps_structure : forall c f c' z,
+  transform_qubits c f = (c', inl z) -> map (map uid) (moms c') = map (map uid) (moms c).
+Proof. exact transform_keeps_uids. Qed.
+Print Assumptions C05_transform_keeps_structure.
+
 (* the batch_* edits are all-or-nothing, as their docstrings promise *)
 Theorem C05_batch_edits_atomic : forall c,
   (forall rs c' e, batch_remove c rs = (c', inr e) -> c' = c) /\
